@@ -25,12 +25,37 @@ package volatility
 //@ ensures[C04] forall kk :: 0 <= kk && kk < len(result0) ==> hor(result0, kk) <= hor(c, kk + (b.IdlePeriod()))
 //@ ensures[C04] forall kk :: 0 <= kk && kk < len(result1) ==> hor(result1, kk) <= hor(c, kk + (b.IdlePeriod()))
 //@ ensures[C04] forall kk :: 0 <= kk && kk < len(result2) ==> hor(result2, kk) <= hor(c, kk + (b.IdlePeriod()))
+//@ use psum_cong(cs[0], c, _)
+//@ use std_cong(cs[1], c, b.Period, _)
+//@ step[C01,C15] "parts" forall k :: 0 <= k && k < len(result1) ==> result1[k] == smaS(c, b.Period)[k] && std2s[0][k] == 2 * stdS(c, b.Period)[k] && std2s[0][k] >= 0
+//@ ensures[C01] "formula" forall k :: 0 <= k && k < len(result1) ==> result1[k] == smaS(c, b.Period)[k] && result0[k] == smaS(c, b.Period)[k] + 2 * stdS(c, b.Period)[k] && result2[k] == smaS(c, b.Period)[k] - 2 * stdS(c, b.Period)[k]
+//@ ensures[C15] "ordered" forall k :: 0 <= k && k < len(result1) ==> result0[k] >= result1[k] && result1[k] >= result2[k]
 
+// Band Width = (Upper Band - Lower Band) / Middle Band
+//@ stream bbwS(c stream, P int)[k] = ((smaS(c, P)[k] + 2 * stdS(c, P)[k]) - (smaS(c, P)[k] - 2 * stdS(c, P)[k])) / smaS(c, P)[k]
+//@ lemma stdS_nonneg(c stream, P int, k int)
+//@ requires[C15] P >= 1
+//@ ensures[C15] stdS(c, P)[k] >= 0
+//@ use devsq_nonneg(c, k, k + P, _)
+//@ lemma devsq_nonneg(c stream, lo int, hi int, mu real)
+//@ ensures[C15] devsq(c, lo, hi, mu) >= 0
+//@ induction hi from lo
+//@ lemma bbwS_nonneg(c stream, P int, k int)
+//@ requires[C15] P >= 1 && k >= 0 && (forall j :: k <= j && j < k + P ==> c[j] > 0)
+//@ ensures[C15] bbwS(c, P)[k] >= 0
+//@ use stdS_nonneg(c, P, k)
+//@ use psum_window_pos(c, k, k + P)
+//@ use ratio_nonneg(psum(c, k + P) - psum(c, k), P)
+//@ use ratio_nonneg(4 * stdS(c, P)[k], smaS(c, P)[k])
 //@ func BollingerBandWidth.Compute
 //@ requires b.BollingerBands.Period >= 1 && consumed(c) == 0
 //@ ensures[C02] len(result) == max(0, len(c) - (b.IdlePeriod()))
 //@ ensures[C03] consumed(c) == len(c) && closed(result)
 //@ ensures[C04] forall kk :: 0 <= kk && kk < len(result) ==> hor(result, kk) <= hor(c, kk + (b.IdlePeriod()))
+//@ step[C01,C15] "formula" forall k :: 0 <= k && k < len(result) ==> result[k] == bbwS(c, b.BollingerBands.Period)[k]
+//@ ensures[C01] "formula" forall k :: 0 <= k && k < len(result) ==> result[k] == bbwS(c, b.BollingerBands.Period)[k]
+//@ use bbwS_nonneg(c, b.BollingerBands.Period, _)
+//@ ensures[C15] "non-negative" forall k :: 0 <= k && k < len(result) && (forall j :: k <= j && j < k + b.BollingerBands.Period ==> c[j] > 0) ==> result[k] >= 0
 
 //@ func ChandelierExit.Compute
 //@ requires c.Period >= 1 && consumed(highs) == 0 && consumed(lows) == 0 && consumed(closings) == 0 && len(highs) == len(lows) && len(highs) == len(closings)
@@ -62,6 +87,12 @@ package volatility
 
 // moving standard deviation: sqrt of the mean squared deviation from the window mean (population form)
 //@ stream stdS(c stream, P int)[k] = sqrt(devsq(c, k, k + P, (psum(c, k + P) - psum(c, k)) / P) / P)
+//@ lemma std_cong(a stream, b stream, P int, k int)
+//@ requires[C01,C15] k >= 0 && P >= 1 && (forall j :: 0 <= j && j < k + P ==> a[j] == b[j])
+//@ ensures[C01,C15] stdS(a, P)[k] == stdS(b, P)[k]
+//@ use psum_cong(a, b, k + P)
+//@ use psum_cong(a, b, k)
+//@ use devsq_cong(a, b, k, k + P, _)
 //@ func MovingStd.Compute
 //@ requires m.Period >= 1 && consumed(c) == 0
 //@ ensures[C02] len(result) == max(0, len(c) - (m.IdlePeriod()))
@@ -81,6 +112,7 @@ package volatility
 //@ loop#1 invariant forall p :: 0 <= p && p < m.Period ==> ring.buffer[p] == c[consumed(c) - m.Period + rlpos(ring, p)]
 //@ loop#1 invariant sum2 == devsq(c, consumed(c) - m.Period, consumed(c) - m.Period + i, sma) && sum2 >= 0
 
+//@ typeinv PercentB :: self.BollingerBands.Period >= 1
 //@ func PercentB.Compute
 //@ requires p.BollingerBands.Period >= 1 && consumed(closings) == 0
 //@ ensures[C02] len(result) == max(0, len(closings) - (p.IdlePeriod()))
